@@ -32,6 +32,10 @@ CHECKS = {
    technique="exhaustive enumeration of key-tuple pairs over a separator alphabet + property-based testing (rapid) of the real orchestrator with a recording pipeline starter and real queue directories",
    text="Records with generated key tuples go through the real byKeySet orchestrator (1-3 sinks) whose PipelineStarter is a recording fake; each distinct tuple must get exactly one pipeline, whose tag equals the harness's reference expansion of the tag template; buffer IDs must be injective; the real hybridbuffer must create one directory per ID inside the root, with an .id file that round-trips, and ListBufferIDs must list exactly the queues holding chunks. All ordered pairs of tuples over {'', a, b, ab, bc, ',', 'a,b', /, ., .., NUL, space} for 1 and 2 key fields and all 3-way splits of four strings are enumerated; rapid adds arbitrary-byte tuples with boundary-shifted siblings.",
    note="Known finding route:buffer-id-comma-collision (pipeline ID = strings.Join(keys, ',')) is listed in known_findings.jsonl; the oracle continues past it. The empty single key (queue = root directory) and IDs longer than 200 bytes are not put on disk here. Re-attachment of queued chunks at startup is checked by the restart layer of the end-to-end engine."),
+ "C15": dict(engine="c15transform", category="exploration", design="§3 C15",
+   technique="property-based testing (rapid) of generated transform programs against an independent reference interpreter (differential), with a prefix bound for sampled dropping",
+   text="Transform programs from a grammar (every transform type except parseTime/redactEmail which have their own properties; all match operators; nesting to depth 3) are rendered to YAML and loaded through the real verification and construction path, then run on batches of records whose values are substrings of one pooled backing buffer and are biased to the program's own literals and limits; fields, PASS/DROP, the unescaped flag and every metric label count must equal the reference interpreter; sampled drops are decided by observing the documented per-label counters and must stay within one record of the percentage at every prefix.",
+   note="Where the documentation is silent (addFields with an empty expansion leaves the field, mapValue default may clear it, class-only patterns ignore maxLen) the reference follows the behaviour of the pinned tree and acts as a regression oracle. addFields steps with several fields never read each other's destinations (Go map order); glob '?' is excluded (third-party rune semantics); regex semantics are those of Go's regexp package, which is trusted."),
 }
 
 NOT_YET = {}
